@@ -117,7 +117,7 @@ func getDisp(w *world.World) (*dispCtx, error) {
 				return nil, fmt.Errorf("dispatcher has more than one authorization call")
 			}
 			d.gate, d.gateFn, d.gateArgs = call, f, call.Call.Args
-		case world.ShortPkg(world.PkgOf(f)) == "internal" && f.Name() == "Decode":
+		case world.ShortPkg(world.PkgOf(f)) == "internal" && world.BaseName(f) == "Decode":
 			d.decode = call
 		case f.Signature.Results().Len() == 1 && world.TypeIs(f.Signature.Results().At(0).Type(), "/internal", "HandlerFuncParams"):
 			d.paramsCall = call
@@ -599,7 +599,7 @@ func isWriteTest(v ssa.Value) bool {
 		return false
 	}
 	f := c.Call.StaticCallee()
-	return f != nil && f.Name() == "IsWriteCommand" && world.ShortPkg(world.PkgOf(f)) == "internal"
+	return f != nil && world.BaseName(f) == "IsWriteCommand" && world.ShortPkg(world.PkgOf(f)) == "internal"
 }
 
 // dbContextValues returns, for the context value handed to the handler, the SSA values
@@ -1033,7 +1033,7 @@ func ruleD4(w *world.World, r *report.RuleResult) {
 		switch {
 		case f == d.fn:
 			r.OK(key, w.Pos(f.Pos()), "the dispatcher")
-		case pkg == "internal/raft" && f.Signature.Recv() != nil && f.Name() == "Apply":
+		case pkg == "internal/raft" && f.Signature.Recv() != nil && world.BaseName(f) == "Apply":
 			r.OK(key, w.Pos(f.Pos()), "the replicated state machine's Apply (runs committed log entries on every node)")
 		default:
 			r.Fail(key, w.Pos(f.Pos()), fmt.Sprintf("%s invokes a command handler outside the dispatcher and the raft FSM: such an invocation bypasses the cluster guard, the authorization gate and the AOF (invokers: %s)", n, strings.Join(names, ", ")))
@@ -1054,7 +1054,7 @@ func ruleD4(w *world.World, r *report.RuleResult) {
 			return false
 		}
 		f := c.Call.StaticCallee()
-		return f != nil && f.Name() == name
+		return f != nil && world.BaseName(f) == name
 	}
 	syncOrigins := func(v ssa.Value) bool {
 		// the Sync flag of the command / sub-command, through phis
@@ -1459,7 +1459,7 @@ func isClusterTest(v ssa.Value) bool {
 		return false
 	}
 	f := c.Call.StaticCallee()
-	return f != nil && world.InModule(f) && f.Name() == "isInCluster"
+	return f != nil && world.InModule(f) && world.BaseName(f) == "isInCluster"
 }
 
 // aofEngineOnlyStandalone: every store to a SugarDB field of type *aof.Engine lies on an edge
